@@ -325,7 +325,7 @@ PROPS = {
                    "the whole file (and of the foreign file) must equal the snapshot taken before the call",
         level_note="one step of a program is exactly one mutating API call; a call that does not throw is outside this property; the snapshot "
                    "reads everything through public getters (updated_at excluded)",
-        quick=dict(cases=600, size=400, workers=16, timeout=1800),
+        quick=dict(cases=300, size=400, workers=16, timeout=1800),
         thorough=dict(cases=8000, size=400, workers=16, timeout=14400),
         rule="tape -> program (see harness/prog.hpp, profile Reject). Non-trivial: at least one call was rejected in a state with at least 4 "
              "entities. The evidence lists per rejection class how many rejected calls were checked. Distinct = hash of the decoded program.",
@@ -339,7 +339,7 @@ PROPS = {
                    "at the end the snapshot taken before close() must equal the snapshot after a ReadOnly reopen, after a ReadWrite reopen and "
                    "(40% of the cases) the snapshot printed by a freshly started process",
         level_note="snapshot = every getter of every entity incl. all stored data, ids, created_at, links and order; updated_at excluded",
-        quick=dict(cases=600, size=400, workers=16, timeout=1800),
+        quick=dict(cases=400, size=400, workers=16, timeout=1800),
         thorough=dict(cases=8000, size=400, workers=16, timeout=14400),
         rule="tape -> program (profile Valid). Non-trivial: at least one successful delete/unlink, entities of at least 4 kinds besides the file, "
              "and at least one link alive at the final close. Distinct = hash of the decoded program.",
@@ -353,7 +353,7 @@ PROPS = {
                    "delete the new snapshot must equal the old one with the victim (and its subtree) removed and every link to a removed id "
                    "gone - nothing else may differ - and the handle held from before reports itself invalid",
         level_note="prune is a pure function on the snapshot tree; deleteDimensions has no victim id and is covered by C13",
-        quick=dict(cases=600, size=400, workers=16, timeout=1800),
+        quick=dict(cases=300, size=400, workers=16, timeout=1800),
         thorough=dict(cases=8000, size=400, workers=16, timeout=14400),
         rule="tape -> program (profile Valid). Non-trivial: a victim that was referenced by holders of at least 2 different kinds, or whose "
              "subtree holds at least 3 entities. Distinct = hash of the decoded program.",
